@@ -504,6 +504,15 @@ func zooMatching(c *explore.Ctx, idx int64, z *zooSeg) {
 		}
 	}
 	pairs = append(pairs, pairT{"_id", "no-such-id"}, pairT{"nosuchfield", "x"})
+	{
+		var bm *roaring.Bitmap
+		var err error
+		msg := explore.Guard(func() { bm, err = z.seg.DocsMatchingTerms(nil) })
+		if msg != "" || err != nil || bm == nil || !bm.IsEmpty() {
+			c.Violate("ZOO", idx, sigOf("C18", "zoo", "wrong: nil list"), fmt.Sprintf("DocsMatchingTerms(nil): %s err=%v result=%v", msg, err, bm), "ZOO "+z.name)
+			return
+		}
+	}
 	for n := 0; n <= 2; n++ {
 		ok := gen.Pow(len(pairs), n, func(v []int) bool {
 			c.R.Transitions++
